@@ -5,11 +5,9 @@ CONSTANT DropKind = "reducing"
 CONSTANT DropIdx = 2
 CONSTANT Cases <- CasesReducing
 CONSTANT Sel = {}
+CONSTANT DegShift = 0
 INIT InitRows
 NEXT NextRows
 INVARIANT Satisfied
 INVARIANT PinnedInv
-INVARIANT CountInv
-INVARIANT LayoutInv
-INVARIANT UniqueInv
 CHECK_DEADLOCK FALSE
